@@ -62,6 +62,8 @@ def build(ctx, rng, cond, shape=(3, 2, 2)):
             a.write(d, 'f%d' % di, rng.randbytes(4000))
         os.unlink(a.path(a.disks[0], 'ln0'))
         os.makedirs(a.path(a.disks[1], 'newdir/empty'))
+        # recorded nanoseconds not 0, rewritten with a whole-second time-stamp: not a touch candidate
+        a.write(a.disks[0], 'a0', rng.randbytes(3000), mtime_ns=(T0 + 5000) * 10**9)
     elif cond == 'damaged':
         # silent damage: same size, same time stamp
         for d, n in ((a.disks[0], 'a0'), (a.disks[1], 'dir/sub/d1')):
